@@ -1609,3 +1609,55 @@ def rf170(run, units=('gen', 'mir')):
                               'whose sum does not fit in 32 bits combine to a wrong constant' % (fn, src0, ts, l0, c.name, t64, l), line=l0)
     run.control(rule, 'narrowing returns seen by the extractor', total >= 3)
     return total
+
+
+# ---------------------------------------------------------------------------------------------
+# RF180: stored floating-point constants are looked up by their bits
+# ---------------------------------------------------------------------------------------------
+
+def rf180(run, units=('mir', 'gen')):
+    rule = 'RF180'
+    run.rule(rule, 'mir.c and the generator: a search through stored floating-point values — an `==` / `!=` between floating-point operands '
+                   'inside a loop, one of them an element of a collection (`tab[i].v`, `p[i]`, `(*q).v` with q walking) — decides whether two '
+                   'constants are *the same constant*.  Arithmetic equality is not that relation: 0.0 == -0.0, and a NaN differs from itself.  '
+                   'Such look-ups compare the bytes (memcmp, or the integer image); a constant pool keyed by `==` hands `-0.0` the cell of '
+                   '`0.0`.  (Comparisons that implement MIR semantics — the interpreter\'s feq, MIR_op_eq_p on two operands — are not '
+                   'look-ups in a collection and are not judged.)')
+    n = tot = 0
+    for u in units:
+        tu = run.tu(u)
+        for g in tu.func_list:
+            if g.body is None or not g.file.startswith('/repo') or (u != 'mir' and g.file.endswith('/mir.c')):
+                continue
+            for x in g.walk():
+                if not (x['k'] == 'BinaryOperator' and x['op'] in ('==', '!=')):
+                    continue
+                ops = [F.strip(c) for c in x['c']]
+                if not all((getattr(tu.type(o), 's', '') or '') in ('float', 'double', 'long double') for o in ops):
+                    continue
+                tot += 1
+
+                def element(o):
+                    while o['k'] == 'MemberExpr':
+                        o = F.strip(o['c'][0])
+                    return o['k'] == 'ArraySubscriptExpr' or (o['k'] == 'UnaryOperator' and o['op'] == '*')
+                if not any(element(o) for o in ops):
+                    continue
+                p_ = g.parent_of(x)
+                in_loop = False
+                while p_ is not None:
+                    if p_['k'] in ('ForStmt', 'WhileStmt', 'DoStmt'):
+                        in_loop = True
+                        break
+                    p_ = g.parent_of(p_)
+                if not in_loop:
+                    continue
+                n += 1
+                run.functions_analysed.add((u, g.name))
+                run.ob(rule, (u, g.name, x['l']), False, {'site': '%s:%d %s' % (g.relfile(), x['l'], g.name), 'comparison': F.src(x)[:70]})
+                run.violation(rule, g, 'floating-point constants looked up with ==', '%s searches stored floating-point values with `%s` (line %d): '
+                              '0.0 and -0.0 compare equal, so the constant met second gets the cell of the first and changes sign (1 / -0.0 '
+                              'becomes +inf); compare the bytes instead' % (g.name, F.src(x)[:60], x['l']), line=x['l'])
+    run.control(rule, 'floating-point comparisons seen by the extractor', tot >= 10)
+    run.ob(rule, ('units',), n == 0, {'floating-point ==/!= inspected': tot, 'look-ups in a collection': n})
+    return 1
